@@ -11,13 +11,17 @@ SPEC = {
         "On the scheduler model of C04 (any graph, failures, workers, schedules): a measure strictly decreases on every "
         "state-changing step, so every execution is finite (no fairness needed); on acyclic graphs every reachable "
         "state is either final (queues closed and drained, workers done) or has an enabled program step (no deadlock), "
-        "with numPending counting exactly the live tasks until Stop; a target whose dependency failed is never started; "
-        "a failure is reported exactly once and never lost. Partial: real time, the 5 s inactivity timer, the cycle "
-        "detector (C06) and the computation of the exit status from the result stream are outside the model - the "
-        "exit status and the 60 s bound are checked end to end on the real binary only."),
+        "with numPending counting exactly the live tasks until Stop (C05_no_deadlock_build_phase_partial); a target whose "
+        "dependency failed is never started; a failure (failed command, asyncError abort) is reported once, never lost "
+        "and sets the flag the exit status is derived from. PARTIAL, explicitly: the parse phase - SyncParsePackage / "
+        "WaitForPackage waiters, ErrMap.GetOrSet subinclude waiters, parse tasks - is NOT in the model (three of the five "
+        "anchors); the hang the property is motivated by (waiter on a package whose parse failed) is excluded by no theorem; "
+        "those functions are pinned as skeleton facts and exercised end to end only (syntax errors, missing packages, "
+        "several waiters on one unparsable package, 60 s limit). Also outside the model: real time, the 5 s inactivity "
+        "timer, the cycle detector (C06), the 'non-zero only if' half of the exit status (result stream, MonitorState)."),
     "technique": "Lean 4 termination measure + liveness invariants + induction along the dependency order; end-to-end failure injection on the real plz binary",
     "trusted": [
-        "go/ast extractor harness/extract/c04 (skeletons of taskDone, Stop, asyncError, checkForCycles, queueTargetAsync, build.Build, plz.Run)",
+        "go/ast extractor harness/extract/c04 (skeletons of taskDone, Stop, asyncError, checkForCycles, queueTargetAsync, build.Build, plz.Run; parse phase: addPendingParse, LogParseResult, SyncParsePackage, WaitForPackage; output/targets.go handleOutput (the --keep_going stop site); initial numPending and queue sizes)",
         "correspondence harness/cmd/c05 vs Driver/C05.lean: real plz runs with injected exit 1, undefined dependencies, syntax errors, missing packages, cycles of length 1..4, --keep_going on/off, -n 1,2,4,16, 60 s limit; the Lean driver replays the log through the model and computes the expected exit status independently",
         "modelled, not verified: Model/Sched.lean (see C04)",
         "idealisations: wall-clock time is not modelled; plz exit status 0 vs non-zero only",
